@@ -624,6 +624,10 @@ pub trait EncEnv {
     /// hash160 of key_bytes
     fn key_hash(&self, label: &str) -> Vec<u8>;
     fn hash_bytes(&self, kind: char, label: &str) -> Vec<u8>;
+    /// BIP-67 sort key of sortedmulti: the *compressed* serialization (BIP-67 is defined on
+    /// compressed keys only; the library documents "as defined by BIP-67" and applies the
+    /// compressed form also to keys that are pushed uncompressed).
+    fn sort_key(&self, label: &str) -> Vec<u8> { self.key_bytes(label) }
 }
 
 pub fn encode_toks(t: &T, env: &dyn EncEnv, out: &mut Vec<Tok>) {
@@ -762,10 +766,11 @@ pub fn encode_toks(t: &T, env: &dyn EncEnv, out: &mut Vec<Tok>) {
             out.push(Tok::Op(EQUAL));
         }
         Multi(k, ks) | SortedMulti(k, ks) => {
-            let mut kb: Vec<Vec<u8>> = ks.iter().map(|l| env.key_bytes(l)).collect();
+            let mut kk: Vec<(Vec<u8>, Vec<u8>)> = ks.iter().map(|l| (env.sort_key(l), env.key_bytes(l))).collect();
             if matches!(t, SortedMulti(..)) {
-                kb.sort();
+                kk.sort();
             }
+            let kb: Vec<Vec<u8>> = kk.into_iter().map(|x| x.1).collect();
             out.push(Tok::Num(*k as i64));
             for b in kb {
                 out.push(Tok::Push(b));
